@@ -50,9 +50,39 @@ end
 theorem assignment_retError (a : Assignment) : Generated.Assignment.retError a = a.retError := by
   cases a <;> rfl
 
-theorem assignmentToString_eq (f : Function) (a : Assignment) :
-    Generated.assignmentToString f a = assignmentToString f a := by
-  simp only [Generated.assignmentToString, assignmentToString, assignment_string, assignment_retError, errCheck]
+theorem nestBody_eq (f : Function) (i n : String) (cs : List Assignment) (body : String) :
+    Generated.nestStructToString.body f i n cs body = renderNest i n body := by
+  unfold Generated.nestStructToString.body renderNest
+  by_cases h1 : n = "" <;> by_cases h2 : i = "" <;> simp [h1, h2] <;> str_eq
+
+theorem plain_eq (f : Function) (a : Assignment) :
+    Generated.assignmentToString.plain f a = a.render ++ (if a.retError then errCheck f else "") := by
+  simp only [Generated.assignmentToString.plain, assignment_string, assignment_retError, errCheck]
+
+mutual
+theorem assignmentToString_eq (f : Function) : ∀ a : Assignment, Generated.assignmentToString f a = assignmentToString f a
+  | .nestStruct i n cs => by
+      rw [Generated.assignmentToString, assignmentToString, nestBody_eq, assignmentToStringList_eq f cs]
+  | .skipField l => by
+      rw [Generated.assignmentToString, plain_eq, assignmentToString]; simp [Assignment.render, Assignment.retError]
+  | .noMatchField l => by
+      rw [Generated.assignmentToString, plain_eq, assignmentToString]; simp [Assignment.render, Assignment.retError]
+  | .simpleField l r e => by
+      rw [Generated.assignmentToString, plain_eq, assignmentToString]
+      cases e <;> simp [Assignment.render, Assignment.retError]
+  | .sliceAssignment l r t => by
+      rw [Generated.assignmentToString, plain_eq, assignmentToString]; simp [Assignment.render, Assignment.retError]
+  | .sliceLoopAssignment l r t => by
+      rw [Generated.assignmentToString, plain_eq, assignmentToString]; simp [Assignment.render, Assignment.retError]
+  | .sliceTypecastAssignment l r t c => by
+      rw [Generated.assignmentToString, plain_eq, assignmentToString]; simp [Assignment.render, Assignment.retError]
+theorem assignmentToStringList_eq (f : Function) :
+    ∀ cs : List Assignment, Generated.assignmentToStringList f cs = assignmentToStringList f cs
+  | [] => by rw [Generated.assignmentToStringList, assignmentToStringList]
+  | c :: cs => by
+      rw [Generated.assignmentToStringList, assignmentToStringList, assignmentToString_eq f c,
+        assignmentToStringList_eq f cs]
+end
 
 theorem manipulatorToString_eq (m : Manipulator) (src dst : Var) (args : List Var) :
     Generated.manipulatorToString m src dst args = manipulatorToString m src dst args := by
